@@ -7,6 +7,7 @@ termination measure, `Quiet`), which itself imports Props/C01; hence this separa
 built, audited and counted with C01's theorems by the C01 check (harness/common.py: Props/<ID>_*.lean).
 -/
 import SshuttleModel.Props.C02
+import SshuttleModel.Props.C06_World
 
 namespace Sshuttle.Tunnel
 open Sshuttle.Mux (Frame)
@@ -63,6 +64,84 @@ theorem C01_complete (w0 : World) (h0 : Fresh w0)
     exact (hQc p hp).2.2.2.1 hr
   · intro p hp hr
     exact (hQs p hp).2.2.2.1 hr
+
+/-! ### The same for every session below a full cycle of the identifier space, with no hypothesis
+about identifiers -/
+
+def isAcceptEv : LoopEvent → Bool
+  | .accept => true
+  | _ => false
+
+theorem loopMove_not_accept {st : Step} (h : LoopMove st) : isAccept st = false := by
+  cases st <;> first | rfl | cases h
+
+theorem filter_accept_loopMoves (l : List Step) (h : ∀ st ∈ l, LoopMove st) : (l.filter isAccept).length = 0 := by
+  rw [List.length_eq_zero_iff, List.filter_eq_nil_iff]
+  intro st hst
+  rw [loopMove_not_accept (h st hst)]
+  exact Bool.false_ne_true
+
+theorem events_is_run_count (w : World) (evs : List LoopEvent) (hg : ∀ ev ∈ evs, GoodEvent ev) :
+    ∃ steps, (∀ st ∈ steps, GoodStep st) ∧ w.events evs = w.run steps ∧
+      (steps.filter isAccept).length = (evs.filter isAcceptEv).length := by
+  induction evs generalizing w with
+  | nil => exact ⟨[], fun _ h => (by cases h), rfl, rfl⟩
+  | cons a rest ih =>
+    have hrun : w.events (a :: rest) = (w.event a).events rest := by simp only [World.events, List.foldl_cons]
+    obtain ⟨s2, g2, r2, c2⟩ := ih (w.event a) (fun ev hev => hg ev (List.mem_cons_of_mem _ hev))
+    have hone : ∃ s1, (∀ st ∈ s1, GoodStep st) ∧ w.event a = w.run s1 ∧
+        (s1.filter isAccept).length = (if isAcceptEv a then 1 else 0) := by
+      cases a with
+      | pass e k conn sel ios =>
+        obtain ⟨s1, m1, r1, _⟩ := C02_round_is_run w e k conn sel ios
+        exact ⟨s1, fun st h => loopMove_good (m1 st h), r1, filter_accept_loopMoves s1 m1⟩
+      | accept => exact ⟨[.accept], fun st h => (by simp only [List.mem_singleton] at h; subst h; trivial), rfl, rfl⟩
+      | checkFull e => exact ⟨[.checkFull e], fun st h => (by simp only [List.mem_singleton] at h; subst h; trivial), rfl, rfl⟩
+      | foreign e f =>
+        refine ⟨[.foreign e f], fun st h => ?_, rfl, rfl⟩
+        simp only [List.mem_singleton] at h; subst h
+        exact hg _ List.mem_cons_self
+      | appWrite i b => exact ⟨[.appWrite i b], fun st h => (by simp only [List.mem_singleton] at h; subst h; trivial), rfl, rfl⟩
+      | appEof i => exact ⟨[.appEof i], fun st h => (by simp only [List.mem_singleton] at h; subst h; trivial), rfl, rfl⟩
+      | dstWrite i b => exact ⟨[.dstWrite i b], fun st h => (by simp only [List.mem_singleton] at h; subst h; trivial), rfl, rfl⟩
+      | dstEof i => exact ⟨[.dstEof i], fun st h => (by simp only [List.mem_singleton] at h; subst h; trivial), rfl, rfl⟩
+    obtain ⟨s1, g1, r1, c1⟩ := hone
+    refine ⟨s1 ++ s2, ?_, ?_, ?_⟩
+    · intro st h
+      rcases List.mem_append.mp h with h | h
+      · exact g1 st h
+      · exact g2 st h
+    · rw [hrun, r2, r1, run_append]
+    · rw [List.filter_append, List.length_append, c1, c2, List.filter_cons]
+      split <;> simp <;> omega
+
+/-- **C01 (completeness) for every session with fewer than `maxChan` connections** — no hypothesis
+about identifiers, handlers, queues or latency control: from a client that has handed out nothing
+yet and shares its identifier space with no other flow kind, after ANY history of the two loops
+with at most `maxChan` accepted connections that leaves both processes alive, once a pass at each
+end no longer lowers the measure every flow has delivered, in both directions, exactly what the
+tunnel read from the peer endpoint whose socket is still open, and every close has been passed
+on. -/
+theorem C01_complete_below_wrap (w0 : World) (h0 : Fresh w0) (hch : w0.chani = 0) (hex : w0.extraOcc = [])
+    (hf : w0.cm.tooFull = false ∧ w0.sm.tooFull = false) (evs : List LoopEvent)
+    (hg : ∀ ev ∈ evs, GoodEvent ev) (hacc : (evs.filter isAcceptEv).length ≤ w0.maxChan)
+    (hd : (w0.events evs).died = none)
+    (kc ks : Nat)
+    (hkc : (w0.events evs).sm.out ≠ [] → 0 < kc) (hks : (w0.events evs).cm.out ≠ [] → 0 < ks)
+    (hc : worldMu ((w0.events evs).roundAuto .client kc fullIo) = worldMu (w0.events evs))
+    (hs : worldMu ((w0.events evs).roundAuto .server ks fullIo) = worldMu (w0.events evs)) :
+    ∀ f ∈ (w0.events evs).flows,
+      (f.dst.sawShut = false → f.app.pending = [] → f.dst.delivered = written f.app) ∧
+      (f.app.sawShut = false → f.dst.pending = [] → f.app.delivered = written f.dst) ∧
+      (f.app.eofIn = true → f.app.pending = [] → f.dst.sawShut = true) ∧
+      (f.dst.eofIn = true → f.dst.pending = [] → f.app.sawShut = true) := by
+  obtain ⟨steps, _, hrun, hcount⟩ := events_is_run_count w0 evs hg
+  have hn : (chans (w0.events evs)).Nodup := by
+    rw [hrun]
+    exact (C06_session_ids_distinct w0 h0.1 hch hex steps (by rw [hcount]; exact hacc)).2
+  intro f hfm
+  obtain ⟨a, b, _, _, c, d⟩ := C01_complete w0 h0 hf evs hg hn hd kc ks hkc hks hc hs f hfm
+  exact ⟨a, b, c, d⟩
 
 /-- The hypotheses are met by a whole connection in the loop's alphabet (`demoHistory`): three
 bytes written, both endpoints close, five passes per end; at rest the three bytes have arrived. -/
